@@ -1124,6 +1124,20 @@ pub fn resolve(op: &str) -> Option<OpFn> {
                 ok(o, (v, reads()))
             })
         },
+        "F.parse2" => |a, o| {
+            // ONE Formatter, two parses under two clocks: the result of the second one.
+            need(a, 17)?;
+            with_ty!(a[0], T => {
+                let input = text(a[1])?;
+                let pic = text(a[2])?;
+                clock(&a[3..10], o)?;
+                let f = Formatter::try_new(&pic).map_err(en)?;
+                let _first: Result<T, _> = f.parse::<_, T>(&input);
+                clock(&a[10..17], o)?;
+                let v: T = f.parse::<_, T>(&input).map_err(en)?;
+                ok(o, (v, reads()))
+            })
+        },
         "F.parse_t" => |a, o| {
             need(a, 10)?;
             with_ty!(a[0], T => {
